@@ -19,6 +19,7 @@ func H_C09_escape() {
 	var buf bytes.Buffer
 	WriteLogString(&buf, in)
 	out := buf.Bytes()
+	vObserve("escaped", out) // translator validation: the engine's bytes must equal the native bytes
 
 	// (4) no raw control byte, no unescaped quote, no dangling backslash
 	for i := 0; i < len(out); i++ {
